@@ -286,7 +286,9 @@ func (fv *FuncVerifier) frameGoal(name, sortS string, cur Term) (Term, bool) {
 		return Eq(cur, old), true
 	}
 	r := Term{"r!f", SInt}
-	conds := []Term{Lt(r, fv.pre.hwm)}
+	// (reference 0 is nil: there is no such object, and the "elements of the nil array" that an
+	// append to a nil slice nominally overwrites are never read)
+	conds := []Term{Lt(r, fv.pre.hwm), Not(Eq(r, I(0)))}
 	if strings.HasPrefix(name, "LK_") {
 		// lock/once state lives at sub-object references (negative): a sub-object of an object
 		// allocated by this activation is not part of the caller's state
@@ -419,6 +421,43 @@ func (e *Enc) heapSort(name string) string {
 	panic("heapSort: unknown heap array " + name)
 }
 
+// predDefAxiom: forall params. P_name(params) <=> body  (the definition of an opaque predicate,
+// handed only to the obligations of clauses that reveal it)
+func predDefAxiom(enc *Enc, pd *Pred) Term {
+	vars := map[string]Value{}
+	var binders []string
+	var args []Term
+	var sorts []string
+	for _, p := range pd.Params {
+		nm := p.Name + "!D"
+		v := specParamValue(p, nm)
+		vars[p.Name] = v
+		for _, l := range specParamLeaves(p.Type) {
+			binders = append(binders, fmt.Sprintf("(%s %s)", nm+l.Suffix, l.Sort))
+			sorts = append(sorts, l.Sort)
+		}
+		args = append(args, v.L...)
+	}
+	enc.declareFun("P_"+pd.Name, sorts, "Bool")
+	env := &Env{enc: enc, vars: vars, nb: &enc.nfresh, noHeap: true, pkg: enc.pkgByPath(pd.Pkg), reveal: map[string]bool{pd.Name: true}}
+	body := env.evalB(pd.Body)
+	atom := app(SBool, "P_"+pd.Name, args...)
+	return Term{"(forall (" + strings.Join(binders, " ") + ") (! (= " + atom.S + " " + body.S + ") :pattern (" + atom.S + ")))", SBool}
+}
+
+// revealAxioms: the definitions a clause's proof may use.
+func revealAxioms(enc *Enc, names []string) []Term {
+	var out []Term
+	for _, n := range names {
+		pd := enc.db.Preds[n]
+		if pd == nil || !pd.Opaque {
+			panic(specErr("reveal: " + n + " is not an opaque predicate"))
+		}
+		out = append(out, predDefAxiom(enc, pd))
+	}
+	return out
+}
+
 // lemmaAxiom: forall params. requires ==> ensures
 func lemmaAxiom(enc *Enc, lm *Lemma) Term {
 	vars := map[string]Value{}
@@ -484,6 +523,7 @@ func VerifyLemma(prog *ssa.Program, db *ContractDB, lm *Lemma) *FuncResult {
 		}
 		pc = append(pc, lemmaAxiom(enc, ul))
 	}
+	pc = append(pc, revealAxioms(enc, lm.Reveal)...)
 	var req, ens []Term
 	for _, r := range lm.Requires {
 		req = append(req, env.evalB(r.E))
